@@ -32,7 +32,7 @@ theorem C03_undo_null_core (T : ZTable) (p : Position) (hk : KeyOK T p) (fo : Ra
   apply pos_ext
   · show 1 - (1 - p.side) = p.side
     rcases hs with h | h <;> simp [h]
-  · show ((p.halfmove + 1) % 256 + 255) % 256 = p.halfmove
+  · show ((p.halfmove + 1) % 65536 + 65535) % 65536 = p.halfmove
     omega
   · show p.ply + 1 - 1 = p.ply
     omega
